@@ -16,6 +16,7 @@ struct Obs {
     log: Mutex<Vec<(u64, u64, u64)>>, // (emission id, enter stamp, exit stamp)
     handle_updates: AtomicUsize,
     linger: usize,
+    misrouted: Mutex<Vec<(u8, u8)>>, // (method the emission was made through, method it arrived at)
 }
 
 struct Rec {
@@ -37,11 +38,17 @@ impl CounterFn for H {
 
 thread_local! {
     static CUR_EMISSION: std::cell::Cell<u64> = const { std::cell::Cell::new(0) };
+    /// which Recorder method the emission in progress on this thread was made through (emit's kind % 6; 99 = unknown)
+    static CUR_METHOD: std::cell::Cell<u8> = const { std::cell::Cell::new(99) };
 }
 
 impl Rec {
-    fn call(&self) {
+    fn call(&self, method: u8) {
         let o = &self.obs;
+        let want = CUR_METHOD.with(|c| c.get());
+        if want != 99 && want != method {
+            o.misrouted.lock().unwrap().push((want, method));
+        }
         let enter = o.stamp.fetch_add(1, Ordering::SeqCst);
         if o.finalised.load(Ordering::SeqCst) || self.canary != 0xC20C20 {
             o.entered_after_final.fetch_add(1, Ordering::SeqCst);
@@ -72,24 +79,24 @@ impl Drop for Rec {
 
 impl Recorder for Rec {
     fn describe_counter(&self, _: KeyName, _: Option<Unit>, _: SharedString) {
-        self.call()
+        self.call(3)
     }
     fn describe_gauge(&self, _: KeyName, _: Option<Unit>, _: SharedString) {
-        self.call()
+        self.call(4)
     }
     fn describe_histogram(&self, _: KeyName, _: Option<Unit>, _: SharedString) {
-        self.call()
+        self.call(5)
     }
     fn register_counter(&self, _: &Key, _: &Metadata<'_>) -> Counter {
-        self.call();
+        self.call(0);
         Counter::from_arc(Arc::new(H { obs: self.obs.clone() }))
     }
     fn register_gauge(&self, _: &Key, _: &Metadata<'_>) -> Gauge {
-        self.call();
+        self.call(1);
         Gauge::noop()
     }
     fn register_histogram(&self, _: &Key, _: &Metadata<'_>) -> Histogram {
-        self.call();
+        self.call(2);
         Histogram::noop()
     }
 }
@@ -105,6 +112,7 @@ fn new_obs(linger: usize) -> Arc<Obs> {
         log: Mutex::new(Vec::new()),
         handle_updates: AtomicUsize::new(0),
         linger,
+        misrouted: Mutex::new(Vec::new()),
     })
 }
 
@@ -122,6 +130,7 @@ impl<F: FnOnce()> Drop for OnDrop<F> {
 }
 
 fn emit(w: &dyn Recorder, kind: u64) -> Option<Counter> {
+    CUR_METHOD.with(|c| c.set((kind % 6) as u8));
     let key = Key::from_static_name("c20");
     match kind % 6 {
         0 => return Some(w.register_counter(&key, &MD)),
@@ -327,6 +336,11 @@ fn run_trials(a: &Args) -> Report {
         let mut fail = |sig: &str, what: &str, extra: J| {
             rep.violation(sig, jo! {"what" => what, "trial" => desc.clone(), "recovery_call" => rcall, "recovery_return" => rret, "detail" => extra});
         };
+        if let Some((want, got)) = obs.misrouted.lock().unwrap().first().cloned() {
+            const NAMES: [&str; 6] = ["register_counter", "register_gauge", "register_histogram", "describe_counter", "describe_gauge", "describe_histogram"];
+            fail("C20:emission-reached-another-recorder-method", "an emission made through one Recorder method of the wrapper arrived at a different method of the wrapped recorder", jo! {"made_through" => NAMES[want as usize % 6], "arrived_at" => NAMES[got as usize % 6]});
+            continue;
+        }
         if let Some(m) = emit_panics.first() {
             fail("C20:emission-panicked", "an emission through the wrapper panicked (it must reach the recorder or be ignored and yield an inert handle)", jo! {"panic" => m.clone(), "emissions_that_panicked" => emit_panics.len()});
             continue;
@@ -348,6 +362,13 @@ fn run_trials(a: &Args) -> Report {
             let r_ = reached.get(id);
             if *ret < rcall && r_.is_none() {
                 fail("C20:live-emission-not-delivered", "an emission that returned before recovery was called did not reach the wrapped recorder", jo! {"emission" => *id, "call" => *call, "ret" => *ret});
+            } else if !recover_by_drop && r_.is_none() {
+                // into_inner cannot hand the recorder back while a call is executing inside it: if some call left the
+                // recorder after this emission had returned, the recorder was still live and unrecovered for the whole of
+                // this emission, whatever into_inner had started doing meanwhile
+                if let Some((oid, _, oex)) = log.iter().find(|(_, _, ex)| *ex > *ret) {
+                    fail("C20:live-emission-not-delivered:while-recovery-was-still-waiting", "an emission that started and returned while another call was still executing inside the recorder (so before into_inner could have recovered it) did not reach the wrapped recorder", jo! {"emission" => *id, "call" => *call, "ret" => *ret, "call_still_inside_afterwards" => *oid, "its_exit" => *oex});
+                }
             }
             if *call > rret && r_.is_some() {
                 // history class: the handle was dropped while some other emission was still in flight (it had been
